@@ -64,6 +64,20 @@ def rule_r1(ctx) -> List[R.Inst]:
         insts.append(R.viol("C16.R1", "int-index", file, int_branch.lineno,
                             "an int index is not resolved by position (iloc): lists with non-default row labels "
                             "return the wrong row", construct=unparse(int_branch.body[0])[:160]))
+    # what counts as an integer position: Python ints AND numpy integers (np.argmax, searchsorted, len-arithmetic on arrays all
+    # return np.int64, and a plain sequence accepts them through __index__); `isinstance(item, int)` alone sends them to the
+    # column-lookup branch (KeyError)
+    t_ = unparse(int_branch.test.args[1])
+    wide = any(w in t_ for w in ("np.integer", "numpy.integer", "Integral", "SupportsIndex")) or any(
+        isinstance(x, ast.Call) and isinstance(x.func, ast.Attribute) and x.func.attr == "index" and unparse(x.func.value) == "operator"
+        for x in ast.walk(fn.node))
+    if wide:
+        insts.append(R.ok("C16.R1", "int-kinds", file, int_branch.lineno, idiom=f"isinstance(item, {t_})"))
+    else:
+        insts.append(R.viol("C16.R1", "int-kinds", file, int_branch.lineno,
+                            f"only 'isinstance(item, {t_})' selects the positional branch: a numpy integer (the result of np.argmax, "
+                            f"searchsorted, ...) falls into the column lookup and raises KeyError, although a plain sequence accepts it",
+                            construct=f"isinstance(item, {t_})"))
     # other indices: df[...] re-wrapped in the receiver's class
     good = False
     for n in int_branch.orelse:
@@ -338,6 +352,23 @@ def rule_r5(ctx) -> List[R.Inst]:
                                    f"the concatenated rows are transformed before they become the new list ('{extra[0]}'): appending must keep "
                                    f"every value as it is (a cast to the receiver's dtypes truncates a fractional value appended to an "
                                    f"integer-typed list)", construct=f"append: {extra[0]}")]
+    # an item / Series is turned into a one-row frame by transposing it: `.T` of a mixed-type Series gives a frame whose columns
+    # are ALL object-typed, and the concat then degrades every column of the list to object (np.isnan, arithmetic dtypes and
+    # integer indexing downstream break) unless the row is re-typed first
+    degrade = []
+    for n in walk_no_nested(fn.node):
+        if isinstance(n, ast.Assign) and isinstance(n.targets[0], ast.Name) and n.targets[0].id == "val":
+            v = n.value
+            has_T = any(isinstance(x, ast.Attribute) and x.attr == "T" for x in ast.walk(v))
+            retyped = any(isinstance(x, ast.Call) and isinstance(x.func, ast.Attribute) and x.func.attr in ("infer_objects", "astype", "convert_dtypes")
+                          for x in ast.walk(v))
+            if has_T and not retyped:
+                degrade.append(n)
+    if degrade and order_ok and ign_ok and sort_ok:
+        return [R.viol("C16.R5", "append", file, degrade[0].lineno,
+                       f"'{unparse(degrade[0])}' builds the appended row by transposing a Series: all its columns are object-typed, so after "
+                       f"the concat every column of the list is object-typed (a list extended by an item is no longer numeric: np.isnan on "
+                       f"its lengths raises, e.g. in hitsound_copy)", construct=f"append: {unparse(degrade[0].value)} without infer_objects()")]
     if order_ok and ign_ok and sort_ok:
         return [R.ok("C16.R5", "append", file, c.lineno, idiom="concat([self.df, val], ignore_index=True); sorted iff sort")]
     why = []
@@ -910,7 +941,7 @@ def rule_r12(ctx) -> List[R.Inst]:
 
 
 SPECS = [
-    RuleSpec("C16.R1", rule_r1, 2, "A7", "int index is positional; other indices re-wrap df[...] in the receiver's class"),
+    RuleSpec("C16.R1", rule_r1, 3, "A7", "int index is positional; other indices re-wrap df[...] in the receiver's class"),
     RuleSpec("C16.R2", rule_r2, 2, "A7", "__len__ = rows; __iter__ yields one item per row in row order"),
     RuleSpec("C16.R3", rule_r3, 8, "A8", "first/last = min/max of offset (tail for holds); overrides keep guard and normalisation"),
     RuleSpec("C16.R4", rule_r4, 3, "A7", "sorted: key offset, ascending = not reverse, stable"),
